@@ -120,7 +120,7 @@ fn gc_plan(prop: &'static str, tier: &str) -> Vec<HxCfg> {
             drain(depth(a4(prop, "4 ids"), 7)),
             drain(depth(a5(prop, "ids 1..4 in 5 slots"), 6)),
             drain(seeded5(prop, "5 ids from seeds", 3)),
-            drain(HxCfg::new(prop, "3 ids, heap-encoded data only", 2, 3, &[0, 1, 2], &[0], &[1])),
+            drain(HxCfg::new(prop, "3 ids, heap-encoded data of two lengths", 2, 3, &[0, 1, 2], &[0], &[1, 6])),
             drain(depth(a256(prop, "ids 0,5,254,255 in 256 slots, Sodg<16>"), 4)),
         ]
     } else {
@@ -232,7 +232,7 @@ pub fn hx_plan(prop: &'static str, tier: &str) -> Vec<HxCfg> {
             if quick(tier) {
                 vec![
                     p(all_ops(a3(prop, "3 ids, all ops"))),
-                    p(depth(HxCfg::new(prop, "3 ids, 3 label kinds, 3 data", 3, 3, &[0, 1, 2], &[0, 1, 2], &[0, 1, 2]), 5)),
+                    p(depth(HxCfg::new(prop, "3 ids, 3 label kinds, 4 data (8, 9, 0 and 17 bytes)", 3, 3, &[0, 1, 2], &[0, 1, 2], &[0, 1, 2, 6]), 5)),
                     p(depth(a4(prop, "4 ids"), 6)),
                     p(depth(HxCfg::new(prop, "ids 0,2,5 in 7 slots (never-added slots in between)", 2, 7, &[0, 2, 5], &[0, 3], &[3]), 5)),
                     p(seeded5(prop, "5 ids from seeds", 2)),
@@ -241,7 +241,7 @@ pub fn hx_plan(prop: &'static str, tier: &str) -> Vec<HxCfg> {
                 vec![
                     wall(p(all_ops(a3(prop, "3 ids, all ops"))), 600),
                     wall(p(depth(all_ops(a3x(prop, "3 ids, 2 labels, 2 data, all ops")), 8)), 1500),
-                    wall(p(depth(HxCfg::new(prop, "3 ids, 3 label kinds, 3 data", 3, 3, &[0, 1, 2], &[0, 1, 2], &[0, 1, 2]), 7)), 1200),
+                    wall(p(depth(HxCfg::new(prop, "3 ids, 3 label kinds, 4 data (8, 9, 0 and 17 bytes)", 3, 3, &[0, 1, 2], &[0, 1, 2], &[0, 1, 2, 6]), 7)), 1200),
                     wall(p(depth(a4(prop, "4 ids"), 9)), 1500),
                     wall(p(depth(HxCfg::new(prop, "ids 0,2,5 in 7 slots (never-added slots in between)", 2, 7, &[0, 2, 5], &[0, 3], &[3]), 7)), 900),
                     wall(p(seeded5(prop, "5 ids from seeds", 4)), 900),
